@@ -22,6 +22,7 @@ func runC11(c *Ctx, r *Run) {
 	r.Rule("DEP-N2", "BIP-340 nonce: depends on secret key, message, public key and aux (reader or atomic counter)")
 	r.Rule("START-S3", "the session identifier that separates two signing sessions reaches the session hash the nonces are derived from")
 	r.Rule("SPEC-TH", "TaggedHash streams SHA256(tag) twice and then every data field, whole, into one SHA-256")
+	r.Rule("ENC-1", "the writers behind the session hash (participant list, identifiers, key material) have an injective layout")
 	r.Rule("DEP-N3", "no nonce is taken from or cached in package-level state")
 
 	// ---- FROST
@@ -129,6 +130,9 @@ func runC11(c *Ctx, r *Run) {
 
 	r.Require("DEP-N1", 8)
 	r.Require("DEP-N2", 4)
+	// the session hash separates signer sets only if the participant list is written injectively
+	checkWriterShapes(c, r, writerImplementers(c))
+	r.Require("ENC-1", 17)
 	// the BIP-340 nonce absorbs the whole message only if the tagged hash absorbs all of its data
 	checkTaggedHashShapeAs(c, r, "SPEC-TH")
 	r.Require("SPEC-TH", 4)
